@@ -284,6 +284,7 @@ SyntaxVisitor::Action Disambiguator::visitMemberAccessExpression(const MemberAcc
 SyntaxVisitor::Action Disambiguator::visitArraySubscriptExpression(const ArraySubscriptExpressionSyntax* node)
 {
     visitMaybeAmbiguousExpression(node->expr_);
+    visitMaybeAmbiguousExpression(node->arg_);
 
     return Action::Skip;
 }
@@ -303,6 +304,8 @@ SyntaxVisitor::Action Disambiguator::visitCastExpression(const CastExpressionSyn
 SyntaxVisitor::Action Disambiguator::visitCallExpression(const CallExpressionSyntax* node)
 {
     visitMaybeAmbiguousExpression(node->expr_);
+    for (auto iter = node->args_; iter; iter = iter->next)
+        visitMaybeAmbiguousExpression(iter->value);
 
     return Action::Skip;
 }
@@ -369,6 +372,9 @@ SyntaxVisitor::Action Disambiguator::visitCompoundStatement(const CompoundStatem
 
 SyntaxVisitor::Action Disambiguator::visitDeclarationStatement(const DeclarationStatementSyntax* node)
 {
+    // Initializers, array sizes, and static assertions of a local declaration hold expressions.
+    visit(node->decl_);
+
     return Action::Skip;
 }
 
@@ -382,6 +388,7 @@ SyntaxVisitor::Action Disambiguator::visitExpressionStatement(const ExpressionSt
 
 SyntaxVisitor::Action Disambiguator::visitLabeledStatement(const LabeledStatementSyntax* node)
 {
+    visitMaybeAmbiguousExpression(node->expr_);
     visitMaybeAmbiguousStatement(node->stmt_);
 
     return Action::Skip;
